@@ -20,6 +20,12 @@ claim("C17",
  "DESIGN.md 6/C17",
  "Not covered: Manager (validation of announced hashes, blacklisting) and libp2p events.")
 
+claim("C14",
+ "Bounded symbolic model checking of the real finder and pruning cycle over header chains of 2..5 blocks with arbitrary non-decreasing symbolic timestamps (block time below, at or above the configured estimate), arbitrary positive window, head and last-pruned height anywhere: no header handed to the pruner lies inside the window, the run found is gap-free, a non-full batch leaves out no header older than the window by more than one block time, one cycle terminates for every failure pattern, the checkpoint never moves backwards, and afterwards every old header is pruned or recorded failed.",
+ "symbolic execution of go/ssa + SMT over symbolic timestamps (time as 64-bit ns terms), per-call fault outcomes as symbolic booleans",
+ "DESIGN.md 6/C14",
+ "Not covered: archival Q4-only pruning (store level, see C07/C05), pruneOnHeaderDelete interleaved with a cycle, restart persistence through the real datastore.")
+
 claim("C13",
  "Bounded model checking of the real coordinator/worker code at quiescence: every started job has reported, catch-up-done holds exactly when nothing is queued, in flight or failed (including right after resume), every height is sampled or recorded failed, statistics agree with the ghost record of sampled heights, worker counts respect limit / 2x limit, and the back-off attempt count increases by one with a delay that saturates at the last interval for every attempt count 0..8 and every instant.",
  "symbolic execution of go/ssa with schedules as decisions + SMT; unbounded liveness replaced by bounded quiescence statements",
